@@ -148,7 +148,7 @@ def _deps_hash(src, args):
         ki = ",".join(sorted(known_internal().get(unit, ())))
     except OSError:
         ki = ""
-    return _sha(r.stdout, " ".join(args), " ".join(IR_FLAGS), "inline-v1:" + ki)
+    return _sha(r.stdout, " ".join(args), " ".join(IR_FLAGS), "inline-v2:" + ki)
 
 
 _known_internal = None
@@ -195,14 +195,54 @@ def _inline_new_helpers(path, unit):
         lines[k] = line[:g.start(1)] + str(remap[old][0]) + line[g.end(1):]
     for old, (n, body) in remap.items():
         lines.append("attributes #%d = {%s}" % (n, body))
+    # the functions that receive inlined code are afterwards jump-threaded: an inlined helper's `return -1` followed by the
+    # caller's `if (rc < 0)` becomes a direct edge, so the merged return-code phi does not create paths that cannot happen.
+    # Every other function of the unit is fenced off with optnone and keeps the shape the rules were written against.
+    text2 = "\n".join(lines)
+    callers = set()
+    cur = None
+    for line in lines:
+        m = re.match(r"define [^\n]*?@\"?([\w.$]+)\"?\(", line)
+        if m:
+            cur = m.group(1)
+        elif line.startswith("}"):
+            cur = None
+        elif cur is not None and re.search(r"\bcall\b[^\n]*@\"?(%s)\"?\(" % "|".join(re.escape(x) for x in new), line):
+            callers.add(cur)
+    # transitive: a new helper calling another new helper
+    fence = {}
+    out_lines = []
+    for line in lines:
+        m = re.match(r"define [^\n]*?@\"?([\w.$]+)\"?\(", line)
+        if m and m.group(1) not in callers and m.group(1) not in new:
+            g = re.search(r"\) (?:[a-z_]+ )*#(\d+)", line)
+            if g:
+                oldg = int(g.group(1))
+                if oldg not in fence:
+                    body = groups.get(oldg, "")
+                    if "optnone" not in body:
+                        body = re.sub(r"\b(optsize|minsize|alwaysinline)\b", "", body)
+                        body = " optnone " + (body if "noinline" in body else " noinline " + body)
+                    fence[oldg] = (nxt, body)
+                    nxt += 1
+                line = line[:g.start(1)] + str(fence[oldg][0]) + line[g.end(1):]
+        out_lines.append(line)
+    for oldg, (n, body) in fence.items():
+        out_lines.append("attributes #%d = {%s}" % (n, body))
     with open(path + ".in", "w") as fh:
-        fh.write("\n".join(lines))
-    r = subprocess.run(["opt-14", "-passes=always-inline", "-S", path + ".in", "-o", path + ".out"],
+        fh.write("\n".join(out_lines))
+    r = subprocess.run(["opt-14", "-passes=always-inline,function(jump-threading)", "-S", path + ".in", "-o", path + ".out"],
                        stdout=subprocess.PIPE, stderr=subprocess.PIPE, text=True)
     os.unlink(path + ".in")
     if r.returncode != 0:
         raise AnalysisBroken("inlining new helper functions %s failed:\n%s" % (new, r.stderr[-2000:]))
-    os.rename(path + ".out", path)
+    with open(path + ".out") as fh:
+        t = fh.read()
+    os.unlink(path + ".out")
+    # drop the fence again (the attribute is only there to keep the pass away)
+    t = re.sub(r"^(attributes #\d+ = \{[^\n]*?)\boptnone\b", r"\1", t, flags=re.M)
+    with open(path, "w") as fh:
+        fh.write(t)
 
 
 def compile_unit(src, args, tag, raw=False):
